@@ -19,6 +19,7 @@ sys.path.insert(0, str(Path(__file__).resolve().parent))
 import pq_min as pq
 
 PID = "C17"
+sys.setrecursionlimit(200000)
 I32MAX = 2**31 - 1
 LOGICALS = [10000, 20000, 30000, 40000, 60000, 110000, 120000, 130000, 140000, 150000,       # parameterless
             50000 + 2 * 100 + 9, 50000 + 0 * 100 + 38, 100000 + 8 * 100 + 1, 100000 + 64 * 100 + 0,
@@ -245,7 +246,7 @@ def gen_lists(tier, rng):
             flatten(t, els)
         for e in els[1:]:
             if e["hastype"] and rng.random() < 0.3:
-                e["hastype"] = 0            # a group without children
+                e["hastype"], e["type"] = 0, 0          # a group without children
         lines.append(list_case(els, [1, 2, 3]))
     return lines
 
